@@ -14,7 +14,7 @@ private constructors.
 """
 from __future__ import annotations
 
-from typing import Dict, List, Tuple
+from typing import Any, Dict, List, Tuple
 
 XSI = 'xmlns:xsi="http://www.w3.org/2001/XMLSchema-instance"'
 HEAD = ('<?xml version="1.0" encoding="UTF-8" standalone="no" ?>\n'
@@ -181,12 +181,12 @@ def param(kind: str, name: str, body: str, byte: object = None, bit: object = No
     return f'<PARAM{attr} xsi:type="{kind}">{nm}{pos}{body}</PARAM>'
 
 
-def p_const(name: str, value: object, byte: object = None, bits: int = 8, **kw: object) -> str:
+def p_const(name: str, value: object, byte: object = None, bits: int = 8, **kw: Any) -> str:
     return param("CODED-CONST", name,
                  f"<CODED-VALUE>{value}</CODED-VALUE>" + dct_std("A_UINT32", bits), byte, **kw)
 
 
-def p_value(name: str, dop_id: str, byte: object = None, default: str = "", **kw: object) -> str:
+def p_value(name: str, dop_id: str, byte: object = None, default: str = "", **kw: Any) -> str:
     d = f"<PHYSICAL-DEFAULT-VALUE>{default}</PHYSICAL-DEFAULT-VALUE>" if default != "" else ""
     return param("VALUE", name, d + f'<DOP-REF ID-REF="{dop_id}"/>', byte, **kw)
 
@@ -412,7 +412,8 @@ def _bv_dops(L: str) -> str:
               scales(scale(lim("LOWER-LIMIT", "1", "CLOSED"), lim("UPPER-LIMIT", "11", "OPEN"),
                            coeffs(["-1", "1"], ["1"])),
                      scale(lim("LOWER-LIMIT", "20", "CLOSED"), lim("UPPER-LIMIT", "40", "CLOSED"),
-                           coeffs(["0", "1"], ["2"])))),
+                           coeffs(["0", "1"], ["2"]))) +
+              "<COMPU-DEFAULT-VALUE><V>0</V></COMPU-DEFAULT-VALUE>"),
         dct_std("A_UINT32", 8), "A_UINT32")
     prog = ("<PROG-CODE><CODE-FILE>conv.jar</CODE-FILE><ENCRYPTION>rot13</ENCRYPTION>"
             "<SYNTAX>JAR</SYNTAX><REVISION>1.0</REVISION><ENTRYPOINT>com.example.Conv</ENTRYPOINT>"
@@ -430,7 +431,7 @@ def _bv_dops(L: str) -> str:
              dct_minmax("A_UNICODE2STRING", 2, "20", "END-OF-PDU",
                         ' BASE-TYPE-ENCODING="UCS-2" IS-HIGHLOW-BYTE-ORDER="true"'),
              "A_UNICODE2STRING")
-    x += dop(f"{L}.DOP.bytesll", "bytesll", IDENT, dct_leading("A_BYTEFIELD", 8), "A_BYTEFIELD")
+    x += dop(f"{L}.DOP.bytesll", "bytesll", IDENT, dct_leading("A_BYTEFIELD", 8, ' IS-HIGHLOW-BYTE-ORDER="true"'), "A_BYTEFIELD")
     x += dop(f"{L}.DOP.strll", "strll", IDENT,
              dct_leading("A_UTF8STRING", 16, ' BASE-TYPE-ENCODING="UTF-8"'), "A_UNICODE2STRING")
     x += dop(f"{L}.DOP.bytesmm", "bytesmm", IDENT, dct_minmax("A_BYTEFIELD", 1, "6", "END-OF-PDU"),
@@ -445,8 +446,8 @@ def _bv_ddds(L: str) -> str:
     x += (f'<DTC-DOP ID="{L}.DOP.dtcs" OID="oid.dtcdop" IS-VISIBLE="false">' + named("dtcs") +
           admin_data("dtcdop") + sdgs("dtcdop") + dct_std("A_UINT32", 24) +
           '<PHYSICAL-TYPE BASE-DATA-TYPE="A_UINT32" DISPLAY-RADIX="HEX"/>' + IDENT + "<DTCS>"
-          f'<DTC ID="{L}.DTC.p0100" OID="oid.dtc.p0100" IS-TEMPORARY="true">'
-          "<SHORT-NAME>P0100</SHORT-NAME><TROUBLE-CODE>256</TROUBLE-CODE>"
+          f'<DTC ID="{L}.DTC.p0100" OID="oid.dtc.p0100" IS-TEMPORARY="true">' +
+          named("P0100") + "<TROUBLE-CODE>256</TROUBLE-CODE>"
           "<DISPLAY-TROUBLE-CODE>P0100</DISPLAY-TROUBLE-CODE><TEXT>air flow circuit</TEXT>"
           f"<LEVEL>2</LEVEL>{sdgs('dtc', False)}</DTC>"
           f'<DTC ID="{L}.DTC.p0200" IS-TEMPORARY="false"><SHORT-NAME>P0200</SHORT-NAME>'
@@ -520,7 +521,7 @@ def _bv_ddds(L: str) -> str:
           f'<SHORT-NAME>only</SHORT-NAME><STRUCTURE-REF ID-REF="{L}.ST.caseB"/>' +
           lim("LOWER-LIMIT", "0") + lim("UPPER-LIMIT", "255") + "</CASE></CASES></MUX></MUXS>")
     x += (f'<ENV-DATAS><ENV-DATA ID="{L}.ED.all" OID="oid.ed.all">' + named("env_all") +
-          admin_data("ed") + sdgs("ed", False) + "<PARAMS>" +
+          admin_data("ed") + sdgs("ed", False) + "<BYTE-SIZE>2</BYTE-SIZE><PARAMS>" +
           p_value("mileage", f"{L}.DOP.u16le", 0) + "</PARAMS><ALL-VALUE/></ENV-DATA>"
           f'<ENV-DATA ID="{L}.ED.p0100"><SHORT-NAME>env_p0100</SHORT-NAME><PARAMS>' +
           p_value("airflow", f"{L}.DOP.u8plain", 0) +
@@ -601,6 +602,12 @@ def _bv_comms(L: str, subset: str) -> str:
           'DIAGNOSTIC-CLASS="VARIANTIDENTIFICATION" IS-MANDATORY="false" IS-EXECUTABLE="true" '
           'IS-FINAL="false">' + named("flash_job") + admin_data("job") + sdgs("job", False) +
           f'<FUNCT-CLASS-REFS><FUNCT-CLASS-REF ID-REF="{L}.FNC.flash"/></FUNCT-CLASS-REFS>' + aud +
+          '<PROTOCOL-SNREFS><PROTOCOL-SNREF SHORT-NAME="rich_prot"/></PROTOCOL-SNREFS>'
+          f'<RELATED-DIAG-COMM-REFS><RELATED-DIAG-COMM-REF ID-REF="{L}.SVC.session">'
+          "<RELATION-TYPE>needs</RELATION-TYPE></RELATED-DIAG-COMM-REF></RELATED-DIAG-COMM-REFS>"
+          f'<PRE-CONDITION-STATE-REFS><PRE-CONDITION-STATE-REF ID-REF="{L}.STATE.unlocked"/>'
+          "</PRE-CONDITION-STATE-REFS><STATE-TRANSITION-REFS>"
+          f'<STATE-TRANSITION-REF ID-REF="{L}.STT.lock"/></STATE-TRANSITION-REFS>'
           "<PROG-CODES><PROG-CODE><CODE-FILE>flash.jar</CODE-FILE><ENCRYPTION>none</ENCRYPTION>"
           "<SYNTAX>JAR</SYNTAX><REVISION>2.1</REVISION><ENTRYPOINT>com.example.Flash</ENTRYPOINT>"
           f'<LIBRARY-REFS><LIBRARY-REF ID-REF="{L}.LIB.helper"/></LIBRARY-REFS></PROG-CODE>'
@@ -642,6 +649,8 @@ def _bv_comms(L: str, subset: str) -> str:
                  param("VALUE", "high_nibble", f'<DOP-REF ID-REF="{L}.DOP.nibble"/>', 14, 4))
     x += message("REQUEST", f"{L}.RQ.strings", "rq_strings",
                  p_const("sid", 49, 0) + p_value("z", f"{L}.DOP.strz", 1, default="hi") +
+                 param("PHYS-CONST", "tag", "<PHYS-CONSTANT-VALUE>ok</PHYS-CONSTANT-VALUE>"
+                       '<DOP-SNREF SHORT-NAME="strz"/>') +
                  p_value("ll", f"{L}.DOP.bytesll") + p_value("tail", f"{L}.DOP.strff"))
     x += message("REQUEST", f"{L}.RQ.fields", "rq_fields",
                  p_const("sid", 50, 0) + p_value("fixed", f"{L}.SF.three", 1) +
@@ -674,8 +683,10 @@ def _bv_comms(L: str, subset: str) -> str:
                        '<TABLE-KEY-SNREF SHORT-NAME="did"/>', 2))
     x += message("POS-RESPONSE", f"{L}.PR.numbers", "pr_numbers",
                  p_const("sid", 112, 0) + p_value("a", f"{L}.DOP.u8", 1) +
-                 param("SYSTEM", "stamp", f'<DOP-REF ID-REF="{L}.DOP.u16le"/>', 2,
-                       attr=' SYSPARAM="TIMESTAMP"', rich=True))
+                 param("SYSTEM", "stamp", f'<DOP-REF ID-REF="{L}.DOP.u16le"/>', 2, 0,
+                       attr=' SYSPARAM="TIMESTAMP"', rich=True) +
+                 param("SYSTEM", "stamp2", '<DOP-SNREF SHORT-NAME="u8plain"/>', 4,
+                       attr=' SYSPARAM="COUNTER"'))
     x += message("POS-RESPONSE", f"{L}.PR.strings", "pr_strings",
                  p_const("sid", 113, 0) + p_value("u", f"{L}.DOP.str16", 1))
     x += message("POS-RESPONSE", f"{L}.PR.fields", "pr_fields",
@@ -698,6 +709,8 @@ def _bv_comms(L: str, subset: str) -> str:
         p_const("sid", 127, 0) +
         param("MATCHING-REQUEST-PARAM", "rq_sid",
               "<REQUEST-BYTE-POS>0</REQUEST-BYTE-POS><BYTE-LENGTH>1</BYTE-LENGTH>", 1) +
+        param("NRC-CONST", "nrc2", "<CODED-VALUES><CODED-VALUE>1</CODED-VALUE></CODED-VALUES>" +
+              dct_std("A_UINT32", 4), 3, 4) +
         param("NRC-CONST", "nrc", "<CODED-VALUES><CODED-VALUE>16</CODED-VALUE>"
               "<CODED-VALUE>17</CODED-VALUE><CODED-VALUE>34</CODED-VALUE></CODED-VALUES>" +
               dct_std("A_UINT32", 8), 2, rich=True), rich=True) + "</NEG-RESPONSES>"
@@ -736,6 +749,9 @@ def core_container(name: str = "rich", subset: str = "rich_cps", spec: str = "ri
     # ---- functional group
     F = "L.fg"
     x += (f'<FUNCTIONAL-GROUPS><FUNCTIONAL-GROUP ID="{F}" OID="oid.{F}">' + named("rich_fg") +
+          admin_data("fg") + sdgs("fg", False) +
+          f'<ADDITIONAL-AUDIENCES><ADDITIONAL-AUDIENCE ID="{F}.AA.all"><SHORT-NAME>everyone'
+          "</SHORT-NAME></ADDITIONAL-AUDIENCE></ADDITIONAL-AUDIENCES>"
           "<DIAG-COMMS>" + service(f"{F}.SVC.all_reset", "all_reset", f"{F}.RQ.reset", [], [],
                                    attr=' ADDRESSING="FUNCTIONAL"') +
           "</DIAG-COMMS><REQUESTS>" +
@@ -748,6 +764,9 @@ def core_container(name: str = "rich", subset: str = "rich_cps", spec: str = "ri
     # ---- ECU shared data
     S = "L.esd"
     x += (f'<ECU-SHARED-DATAS><ECU-SHARED-DATA ID="{S}" OID="oid.{S}">' + named("rich_esd") +
+          admin_data("esd") +
+          f'<FUNCT-CLASSS><FUNCT-CLASS ID="{S}.FNC.shared"><SHORT-NAME>shared_class</SHORT-NAME>'
+          "</FUNCT-CLASS></FUNCT-CLASSS>"
           "<DIAG-DATA-DICTIONARY-SPEC><DATA-OBJECT-PROPS>" +
           dop(f"{S}.DOP.shared8", "shared8", IDENT, dct_std("A_UINT32", 8), "A_UINT32") +
           dop(f"{S}.DOP.shared16", "shared16", IDENT, dct_std("A_UINT32", 16), "A_UINT32") +
@@ -812,6 +831,10 @@ def core_container(name: str = "rich", subset: str = "rich_cps", spec: str = "ri
     # ---- ECU variant
     E = "L.ev"
     x += (f'<ECU-VARIANTS><ECU-VARIANT ID="{E}" OID="oid.{E}">' + named("rich_ev") +
+          admin_data("ev") + sdgs("ev", False) +
+          f'<LIBRARYS><LIBRARY ID="{E}.LIB.evlib"><SHORT-NAME>evlib</SHORT-NAME>'
+          "<CODE-FILE>helper.jar</CODE-FILE><SYNTAX>JAR</SYNTAX><REVISION>1</REVISION></LIBRARY>"
+          "</LIBRARYS>" +
           f'<IMPORT-REFS><IMPORT-REF ID-REF="{S}"{cref}/></IMPORT-REFS>'
           "<DIAG-DATA-DICTIONARY-SPEC><DATA-OBJECT-PROPS>" +
           dop(f"{E}.DOP.ev8", "ev8", IDENT, dct_std("A_UINT32", 8), "A_UINT32") +
@@ -839,6 +862,9 @@ def core_container(name: str = "rich", subset: str = "rich_cps", spec: str = "ri
           '<DIAG-COMM-SNREF SHORT-NAME="muxed"/></NOT-INHERITED-DIAG-COMM>'
           '<NOT-INHERITED-DIAG-COMM><DIAG-COMM-SNREF SHORT-NAME="flash_job"/>'
           "</NOT-INHERITED-DIAG-COMM></NOT-INHERITED-DIAG-COMMS>"
+          '<NOT-INHERITED-VARIABLES><NOT-INHERITED-VARIABLE>'
+          '<DIAG-VARIABLE-SNREF SHORT-NAME="no_such_var"/></NOT-INHERITED-VARIABLE>'
+          "</NOT-INHERITED-VARIABLES>"
           '<NOT-INHERITED-DOPS><NOT-INHERITED-DOP><DOP-BASE-SNREF SHORT-NAME="f64"/>'
           "</NOT-INHERITED-DOP></NOT-INHERITED-DOPS><NOT-INHERITED-TABLES><NOT-INHERITED-TABLE>"
           '<TABLE-SNREF SHORT-NAME="other_table"/></NOT-INHERITED-TABLE></NOT-INHERITED-TABLES>'
